@@ -231,6 +231,7 @@ def main():
     ap.add_argument("--out", default="/tmp/mutation_survey.json")
     ap.add_argument("--files", nargs="*")
     ap.add_argument("--list", action="store_true")
+    ap.add_argument("--retest", help="result file of an earlier survey: run only the mutants that SURVIVED there")
     a = ap.parse_args()
     allm = []
     for rel in TARGETS:
@@ -245,6 +246,10 @@ def main():
         return 0
     rnd = random.Random(a.seed)
     rnd.shuffle(allm)
+    if a.retest:
+        keep = {(r["file"], r["line"], r["op"], r["old"], r["new"]) for r in json.load(open(a.retest)) if r["verdict"] == "SURVIVED"}
+        allm = [m for m in allm if (m["file"], m["line"], m["op"], m["old"], m["new"]) in keep]
+        print(f"retesting {len(allm)} survivors of {a.retest}", flush=True)
     queue = allm[: a.sample]
     results = []
     lock = threading.Lock()
